@@ -617,6 +617,6 @@ example :
     (do let r1 ← treeInsert 2 (emptyRoot : QT Nat) ⟨4, 28, 4, 28⟩ 1
         let r2 ← treeInsert 2 r1 ⟨20, 24, 20, 24⟩ 2
         let p := treeRemove 2 r2 ⟨4, 28, 4, 28⟩ 1
-        some (p.2, p.1.query (some ⟨20, 24, 20, 24⟩), p.1.size)) = some (true, [2], 1) := by decide +kernel
+        some (p.2, p.1.query (some ⟨20, 24, 20, 24⟩), p.1.size)) = some (true, [2], 1) := by decide
 
 end GeosModel.Quad
